@@ -109,7 +109,7 @@ CHECKS = {
           "marked; a collection at any state leaves every reachable object exactly as it was, touches nothing but the heap, and whatever it clears was "
           "unreachable. A second model (Lang/GcPin.v) is the implementation's rule for objects whose release is observable (user destructor, qubits, @tracked "
           "fields): the kept set, computed by iterating 'an object with a field referring into the set joins it', holds every object that reaches an "
-          "observable one, so what a sweep wipes reaches none and refers to nothing kept - for every heap graph. Hook H7 logs the heap graph, kept set and "
+          "observable one - or a live one: the seeds are the observable and the live objects - so what a sweep wipes reaches none and refers to nothing kept - for every heap graph. Hook H7 logs the heap graph, kept set and "
           "swept set of every collection of the generated programs; the extracted iteration must give the same kept set and the swept set must be exactly "
           "the unreached, unobservable objects outside the kept set's descendants. The interpreter itself has no tracing collector, so its output is schedule independent by construction. The implementation is tied "
           "to it through hook H4: each generated program (graphs held by variables, fields, statics, pending arguments, temporaries, return values; bursts "
